@@ -3,6 +3,8 @@ import HmfVerif.Gen.ExprFilters
 import HmfVerif.Proofs.QuadLemmas
 import HmfVerif.Proofs.AnalysisWindows
 import HmfVerif.Proofs.ExprLemmas
+import HmfVerif.Spec.Wiring
+import HmfVerif.Gen.ExprFlow
 /-!
 # C04 — mass variance σ(R) equals its defining integral for every filter
 `Quad.sigmaDisc` is the discretised object `Filter.sigma` computes (composite Simpson in ln k of
@@ -128,5 +130,10 @@ theorem filters_elementwise :
      Gen.Filters.Gaussian_dw_dlnkr, Gen.Filters.TopHat_mass_to_radius, Gen.Filters.TopHat_radius_to_mass,
      Gen.Filters.Gaussian_mass_to_radius, Gen.Filters.Gaussian_radius_to_mass, Gen.Filters.SharpK_mass_to_radius,
      Gen.Filters.SharpK_radius_to_mass].all (fun t => t.isElementwise) = true := by decide
+
+/-- the filter objects are built on the framework's wavenumber grid and its un-normalised / normalised power -/
+theorem filter_component_wiring :
+    Gen.Flow.wiring.lookup "MassFunction.filter" = some Spec.Wiring.filter ∧
+    Gen.Flow.wiring.lookup "MassFunction.normalised_filter" = some Spec.Wiring.normalisedFilter := by decide
 
 end Hmf.C04
